@@ -37,3 +37,20 @@ Check (C19_vpcC_refuted : (forall c, strict_vpcc (payload_of (build_vpcc_box c))
 Check (C19_fragmented_av1C_refuted : (forall c, strict_av1c (payload_of (build_av1c_fmp4 c)) = None)%type).
 Check (C19_fragmented_hvcC_refuted : (forall c, strict_hvcc (payload_of (build_hvcc_fmp4 c)) = None)%type).
 Check (C19_multichannel_dOps_refuted : (forall a, 3 <= at_channels a < 256 -> strict_dops (payload_of (build_dops_box a)) = None)%type).
+Check (C19_finished_file_header_clauses_exact : (forall b m0 ops m rs s,
+  build b [] = inl m0 -> run m0 ops = (m, rs) -> In (RStats s) rs ->
+  Forall op_payload_ok ops -> len (sink_of m) < 4294967296 ->
+  param_sets_fit (effective_config (m_writer m)) ->
+  failed_C19_mux b ops (map class_of rs) (sink_of m) =
+  [3; 4; 7] ++
+  clause 10 (match effective_config (m_writer m) with CfgVp9 _ => false | _ => true end) ++
+  match cfg_audio b with Some a => clause 11 (dops_ok a) | None => [] end)%type).
+Check (C19_finished_file_header_clauses : (forall b m0 ops m rs s cl,
+  build b [] = inl m0 -> run m0 ops = (m, rs) -> In (RStats s) rs ->
+  Forall op_payload_ok ops -> len (sink_of m) < 4294967296 ->
+  Forall (op_params_fit (cfg_codec b)) ops ->
+  In cl (failed_C19_mux b ops (map class_of rs) (sink_of m)) ->
+  cl = 3 \/ cl = 4 \/ cl = 7 \/
+  (cl = 10 /\ cfg_codec b = Vp9) \/
+  (cl = 11 /\ exists a, cfg_audio b = Some a /\ at_codec a = Opus /\ (at_channels a = 0 \/ 2 < at_channels a)))%type).
+Check (C19_oversized_parameter_set_refuted : (~ header_clauses_claim)%type).
